@@ -968,6 +968,14 @@ func (dsc *dataStoreCommand) restore(keyName, serializedData string, ttl int64, 
 		return
 	}
 
+	// only strings are serialized by DUMP; the declared length must match the bytes that follow
+	// (a client can compute the checksum, so the payload is not trusted)
+	if len(content) < 6 || bitflags(content[1]) != FLAG_KEY_TYPE_STRING ||
+		uint64(binary.BigEndian.Uint32(content[2:6])) != uint64(len(content)-6)+1 {
+		output.data = respErrorString("ERR DUMP payload version or checksum are wrong")
+		return
+	}
+
 	var expiration time.Time
 	if ttl != 0 {
 		if absttl {
